@@ -231,10 +231,26 @@ pub fn run(c: &Case, rep: &mut Report) {
                 }
             }
         }
+        // nested entries: the range of a lexical block of an emitted function must not reach into another function
+        for (sub, lo, hi) in &info_out.blocks {
+            let fi: u32 = match sub.strip_prefix('f').and_then(|s| s.parse().ok()) {
+                Some(x) => x,
+                None => continue,
+            };
+            if let Some(fo) = r.funcs.get(fi) {
+                if let Some((_, a, b)) = extents.iter().find(|(i, _, _)| *i == fo) {
+                    rep.count(if *lo >= *a && *hi <= *b && lo < hi { "lexical-blocks-inside-their-function" } else { "lexical-blocks-not-inside-their-function" }, 1);
+                    if *lo != TOMBSTONE && *lo != 0 && extents.iter().any(|(i, s, e)| *i != fo && *lo < *e && *hi > *s + 1 && lo < hi) {
+                        rep.violation(c, "C10/nested-entry-range-covers-another-function", &format!("{}: a lexical block of subprogram {} has range [{:#x}, {:#x}) but its function (output #{}) is at [{:#x}, {:#x})", label, sub, lo, hi, fo, a, b), &blob);
+                    }
+                }
+            }
+        }
         let _ = out_code_end;
         rep.observe("labels", &format!("{}{}", label, if inserted { "+inserted" } else { "" }));
     }
     rep.count("rows-checked", rows_checked);
+    rep.count("nested-entries-in-input-units", info_in.nested_entries as u64);
     if rows_checked >= 3 {
         rep.nontrivial(c, "");
     }
